@@ -102,6 +102,13 @@ claim("C16", "MIR result-discipline (T9) over every fallible call of the SD-JWT 
       "`{jwt}~{disclosures joined by ~}~` with the hasher named in the SD-JWT, option-gated nonce and aud equalities, iat through from_unix and the earliest/latest/now window with the right relations.",
       "sd-jwt-payload's digest matching and hasher selection; cryptographic outcome.", "DESIGN.md §7 C16")
 
+claim("C17", "MIR construction-site gate + ref-cast obligation over every IotaDocument constructor + HIR predicate/decision extraction + derived-impl shape",
+      "Decides for all strings/tags/networks: IotaDID(..) is constructed only in try_from_core after check_validity ✓ with the value passed through normalize, and parse/TryFrom/FromStr all route "
+      "through it (lower-casing first); check_validity chains method == \"iota\", a 32-byte hex tag and a 1..=6 lowercase-alphanumeric network with short-circuit and_then; normalize drops exactly the "
+      "default network; components split at the first ':'; new() formats did:iota:<network>:<hex(bytes)>; Eq/Ord/Hash are derived on the single private normalised field. The ref-cast "
+      "from_inner_ref_unchecked obliges every IotaDocument constructor to store a normalised IOTA DID: three constructors do not (known findings D11a, D11b, D14, probe in findings/).",
+      "prefix_hex behaviour; to_lowercase on non-ASCII input.", "DESIGN.md §7 C17")
+
 for _p, _r in {
     "C01": "rules not yet implemented in this revision (planned, DESIGN §7)", "C02": "rules not yet implemented in this revision",
     "C03": "rules not yet implemented in this revision", "C04": "rules not yet implemented in this revision",
